@@ -210,10 +210,13 @@ class Fixture:
     def monorail_cmd(self, args):
         return [self.bins["monorail"], "-f", self.cfg_path] + list(args)
 
-    def monorail(self, args, env=None, timeout=180, stdin=None):
+    def monorail(self, args, env=None, timeout=180, stdin=None, limit_as=None):
         """Run to completion. Returns dict rc, out (parsed stdout JSON or None), err (list of parsed stderr JSON),
-        raw stdout/stderr."""
-        p = subprocess.Popen(self.monorail_cmd(args), cwd=self.repo, env=self.env(env), stdout=subprocess.PIPE,
+        raw stdout/stderr. limit_as: address-space limit in bytes (the invocation may then die of it: rc -6)."""
+        cmd = self.monorail_cmd(args)
+        if limit_as:
+            cmd = ["prlimit", "--as=%d" % limit_as] + cmd
+        p = subprocess.Popen(cmd, cwd=self.repo, env=self.env(env), stdout=subprocess.PIPE,
                              stderr=subprocess.PIPE, stdin=subprocess.PIPE if stdin is not None else subprocess.DEVNULL,
                              start_new_session=True)
         self.procs.append(p)
@@ -223,6 +226,8 @@ class Fixture:
             self.kill_group(p)
             so, se = p.communicate()
             return {"rc": None, "timeout": True, "out": None, "err": [], "stdout": so, "stderr": se}
+        if p.returncode is not None and p.returncode < 0 and limit_as:
+            return {"rc": p.returncode, "timeout": False, "out": None, "err": [], "stdout": so, "stderr": se}
         if p.returncode is not None and p.returncode < 0:
             # killed by a signal the harness did not send (e.g. the kernel's out-of-memory killer): an environment
             # problem, never a verdict about monorail
